@@ -316,3 +316,30 @@ Proof.
     + cbn [fval fweights]. rewrite Ef, (metric_app (fdim e1)) by auto. rewrite Ex at 1.
       apply rule_separable; auto; apply (metric_len _); auto.
 Qed.
+
+(* ---- the literal form of the property for a scalar step:
+        f(p) finite and  f(p) + ||p-x||_w^2/(2 sigma) <= f(z) + ||z-x||_w^2/(2 sigma)  for all z ---- *)
+Definition minimises_prox_objective (n : nat) (f : Rvec -> option R) (w : Rvec) (sigma : R) (x p : Rvec) : Prop :=
+  length p = n /\ (exists v, f p = Some v) /\
+  forall z, length z = n ->
+    ele (eadd (f p) (Some (wnormsq w (vsub p x) / (2 * sigma))))
+        (eadd (f z) (Some (wnormsq w (vsub z x) / (2 * sigma)))).
+
+Lemma is_proxm_scalar n f w sigma x p : length w = n -> length x = n -> sigma <> 0 ->
+  is_proxm n f (metric w (repeat sigma n)) x p -> minimises_prox_objective n f w sigma x p.
+Proof.
+  intros Hw Hx Hs (Hp & Hf & Ho). split; [assumption|]. split; [assumption|].
+  intros z Hz. specialize (Ho z Hz). rewrite !prox_obj_R in Ho.
+  rewrite !(metric_scalar n) in Ho by auto with vlen.
+  destruct (f p), (f z); cbn [eadd ele] in *; numR; auto.
+Qed.
+
+Theorem fprox_optimal_scalar (e : fexprR) (sigma : R) (x : Rvec) :
+  wf e -> 0 < sigma -> length x = fdim e ->
+  exists p, fprox e (SScal sigma) x = Ok p /\
+            minimises_prox_objective (fdim e) (fval e) (fweights e) sigma x p.
+Proof.
+  intros W Hs Hx. destruct (fprox_optimal_all e W (SScal sigma) x (sig_ok_scal e W _ Hs) Hx) as (p & Ep & Pp).
+  exists p. split; [exact Ep|]. rewrite sig_flat_scal in Pp.
+  apply is_proxm_scalar; auto. lra.
+Qed.
